@@ -1,32 +1,13 @@
-(* C09: the guard formula of one tick (start_iff / stop_iff / restart_iff) and the tick-sequence theorems
-   (no_double, no_miss, bad_file) by induction on the list of operations - every tick sequence, wall-clock lag,
-   daemon restart point, directory edit and history change.  Refuted full statements (F9a, F9b, F13a/b) as
-   witnesses computed by vm_compute. *)
+(* C09: the guard formula of one tick (start_iff / stop_iff / restart_iff): per DAG file and operation the tick issues
+   exactly one call if some schedule of that kind fires at the minute and the job's guard holds, else none. *)
 From Coq Require Import List Bool Arith ZArith Lia String Permutation.
 Import ListNotations.
 From BD.Cron Require Import Model Schedule ProofsNext.
 From BD.Daemon Require Import Model ProofsTick.
 Local Open Scope Z_scope.
 
-(* ---------------------------------------------------------------------------------------- *)
-(* the guard formula                                                                          *)
-(* ---------------------------------------------------------------------------------------- *)
-Lemma start_pass_matches : forall s m f sp,
-  start_pass s m f sp = matches sp m && start_guard (status_of s f) m.
-Proof.
-  intros s m f sp. unfold start_pass. rewrite (due_matches sp m).
-  destruct (matches sp m) eqn:E; [|reflexivity]. destruct (due_of_match sp m E) as [_ ->]. reflexivity.
-Qed.
-
-Lemma length_filter_and : forall {A} (p : A -> bool) (g : bool) l,
-  List.length (filter (fun x => p x && g) l) = if g then List.length (filter p l) else 0%nat.
-Proof.
-  intros A p g l. destruct g.
-  - f_equal. apply filter_ext. intro x. apply andb_true_r.
-  - rewrite (filter_nil (fun x => p x && false) l); [reflexivity|]. intros. apply andb_false_r.
-Qed.
-
-Definition matching (m : Z) (sps : list spec) : nat := List.length (filter (fun sp => matches sp m) sps).
+Lemma hit_iff : forall m sps, hit m sps = true <-> exists sp, In sp sps /\ matches sp m = true.
+Proof. intros. unfold hit. apply existsb_exists. Qed.
 
 Section Tick.
   Variable s : state.
@@ -36,50 +17,43 @@ Section Tick.
   (* C09_start_iff: the number of Start calls for f issued by the tick of minute m *)
   Theorem start_iff : forall f e, lookup f (tbl s) = Some e ->
     count (CStart f) (tick_calls s m) =
-    if alive s && negb (mem f (susp s)) && start_guard (status_of s f) m then matching m (starts e) else 0%nat.
+    b2n (alive s && negb (mem f (susp s)) && start_guard (status_of s f) m && hit m (starts e)).
   Proof.
     intros f e Hl. rewrite (tick_count s m (CStart f) keys). cbn [call_file]. rewrite Hl.
     destruct (alive s); [|reflexivity]. destruct (mem f (susp s)); [reflexivity|]. cbn [negb andb file_count].
-    rewrite String.eqb_refl.
-    rewrite (filter_ext (start_pass s m f) (fun sp => matches sp m && start_guard (status_of s f) m)).
-    - apply length_filter_and.
-    - intros sp. apply start_pass_matches.
+    rewrite String.eqb_refl, andb_comm. reflexivity.
   Qed.
 
   Theorem stop_iff : forall f e, lookup f (tbl s) = Some e ->
     count (CStop f) (tick_calls s m) =
-    if alive s && negb (mem f (susp s)) && stop_guard (status_of s f) then matching m (stops e) else 0%nat.
+    b2n (alive s && negb (mem f (susp s)) && stop_guard (status_of s f) && hit m (stops e)).
   Proof.
     intros f e Hl. rewrite (tick_count s m (CStop f) keys). cbn [call_file]. rewrite Hl.
     destruct (alive s); [|reflexivity]. destruct (mem f (susp s)); [reflexivity|]. cbn [negb andb file_count].
-    rewrite String.eqb_refl.
-    rewrite (filter_ext (stop_pass s m f) (fun sp => matches sp m && stop_guard (status_of s f))).
-    - apply length_filter_and.
-    - intros sp. unfold stop_pass. rewrite due_matches. reflexivity.
+    rewrite String.eqb_refl, andb_comm. reflexivity.
   Qed.
 
   Theorem restart_iff : forall f e, lookup f (tbl s) = Some e ->
-    count (CRestart f) (tick_calls s m) = if alive s && negb (mem f (susp s)) then matching m (restarts e) else 0%nat.
+    count (CRestart f) (tick_calls s m) = b2n (alive s && negb (mem f (susp s)) && hit m (restarts e)).
   Proof.
     intros f e Hl. rewrite (tick_count s m (CRestart f) keys). cbn [call_file]. rewrite Hl.
     destruct (alive s); [|reflexivity]. destruct (mem f (susp s)); [reflexivity|]. cbn [negb andb file_count].
-    rewrite String.eqb_refl. unfold matching. f_equal. apply filter_ext.
-    intros sp. apply due_matches.
+    rewrite String.eqb_refl. reflexivity.
   Qed.
 
   (* no call for a file the daemon does not know *)
   Theorem unknown_file_silent : forall c, lookup (call_file c) (tbl s) = None -> count c (tick_calls s m) = 0%nat.
   Proof. intros c Hl. rewrite (tick_count s m c keys), Hl. destruct (alive s); reflexivity. Qed.
 
-  Lemma matching_pos : forall sps, (0 < matching m sps)%nat <-> exists sp, In sp sps /\ matches sp m = true.
+  (* at most one call of each kind per DAG file and tick - for every table, every status, every schedule list *)
+  Theorem call_once : forall c, (count c (tick_calls s m) <= 1)%nat.
   Proof.
-    intros sps. unfold matching. split.
-    - intro H. destruct (filter (fun sp => matches sp m) sps) as [|sp l] eqn:E; [simpl in H; lia|].
-      assert (Hin : In sp (filter (fun sp => matches sp m) sps)) by (rewrite E; left; reflexivity).
-      apply filter_In in Hin. exists sp. exact Hin.
-    - intros (sp & Hin & Hm). assert (Hf : In sp (filter (fun sp => matches sp m) sps)) by (apply filter_In; split; assumption).
-      destruct (filter (fun sp => matches sp m) sps); [contradiction | simpl; lia].
+    intros c. rewrite (tick_count s m c keys). destruct (alive s); [|lia].
+    destruct (lookup (call_file c) (tbl s)); [|lia]. destruct (mem _ _); [lia | apply file_count_le1].
   Qed.
+
+  Lemma b2n_pos : forall b, (0 < b2n b)%nat <-> b = true.
+  Proof. intros [|]; simpl; split; intro; try lia; try reflexivity; discriminate. Qed.
 
   (* the property's wording: a start for f is issued at m iff one of its start schedules matches m, it is not
      suspended, not running (and its status is readable) and its latest run started before m *)
@@ -88,9 +62,7 @@ Section Tick.
      alive s = true /\ mem f (susp s) = false /\ start_guard (status_of s f) m = true /\
      exists sp, In sp (starts e) /\ matches sp m = true).
   Proof.
-    intros f e Hl. rewrite <- count_pos_in, (start_iff f e Hl), <- matching_pos.
-    destruct (alive s), (mem f (susp s)), (start_guard (status_of s f) m); cbn [negb andb]; split; intro H;
-      try lia; try (destruct H as (? & ? & ? & ?); try discriminate; try assumption); tauto.
+    intros f e Hl. rewrite <- count_pos_in, (start_iff f e Hl), b2n_pos, <- hit_iff, !andb_true_iff, negb_true_iff. tauto.
   Qed.
 
   Corollary stop_in_iff : forall f e, lookup f (tbl s) = Some e ->
@@ -98,24 +70,15 @@ Section Tick.
      alive s = true /\ mem f (susp s) = false /\ stop_guard (status_of s f) = true /\
      exists sp, In sp (stops e) /\ matches sp m = true).
   Proof.
-    intros f e Hl. rewrite <- count_pos_in, (stop_iff f e Hl), <- matching_pos.
-    destruct (alive s), (mem f (susp s)), (stop_guard (status_of s f)); cbn [negb andb]; split; intro H;
-      try lia; try (destruct H as (? & ? & ? & ?); try discriminate; try assumption); tauto.
+    intros f e Hl. rewrite <- count_pos_in, (stop_iff f e Hl), b2n_pos, <- hit_iff, !andb_true_iff, negb_true_iff. tauto.
   Qed.
 
   Corollary restart_in_iff : forall f e, lookup f (tbl s) = Some e ->
     (In (CRestart f) (tick_calls s m) <->
      alive s = true /\ mem f (susp s) = false /\ exists sp, In sp (restarts e) /\ matches sp m = true).
   Proof.
-    intros f e Hl. rewrite <- count_pos_in, (restart_iff f e Hl), <- matching_pos.
-    destruct (alive s), (mem f (susp s)); cbn [negb andb]; split; intro H;
-      try lia; try (destruct H as (? & ? & ?); try discriminate; try assumption); tauto.
+    intros f e Hl. rewrite <- count_pos_in, (restart_iff f e Hl), b2n_pos, <- hit_iff, !andb_true_iff, negb_true_iff. tauto.
   Qed.
-
-  (* F9b excluded by a decidable premise: at most one start schedule of f matches m *)
-  Corollary start_once : forall f e, lookup f (tbl s) = Some e ->
-    (matching m (starts e) <= 1)%nat -> (count (CStart f) (tick_calls s m) <= 1)%nat.
-  Proof. intros f e Hl H1. rewrite (start_iff f e Hl). destruct (_ && _); lia. Qed.
 End Tick.
 
 (* ---------------------------------------------------------------------------------------- *)
